@@ -218,7 +218,9 @@ def archive_features(members, staged_links=()):
        S a symbolic-link member whose target is absolute or (relative to the link) leaves the root
        H a hard-link member whose link name leaves the root (or is absolute)
        L a member name that passes through (or is) a name that staging has already bound to a link in the
-         destination (`staged_links`: names relative to the root)"""
+         destination (`staged_links`: names relative to the root)
+       K (only when none of the above) a link chain: every member is lexically inside, but followed on disk in
+         archive order (trusting-writer model, empty destination) the members reach outside the root"""
     f = set()
     for m in members:
         name = m['name']
@@ -238,6 +240,10 @@ def archive_features(members, staged_links=()):
         elif m['kind'] == 'hard':
             if m['link'].startswith('/') or lexically_escapes(m['link']):
                 f.add('H')
+    if not f and any(m['kind'] in ('sym', 'hard') for m in members):
+        reach, _ = simulate_archive(members, '/R/s/s/s/s/wd')
+        if reach.paths:
+            f.add('K')
     return ''.join(sorted(f))
 
 
